@@ -352,6 +352,17 @@ def generate(workdir='/verif/work'):
     json.dump({v: t for v, t in zip(vers, tbls)}, open(os.path.join(workdir, 'keywords.json'), 'w'))
     with open(os.path.join(workdir, 'keywords.txt'), 'w') as kf:
         for v, t in zip(vers, tbls): kf.write(v + ' ' + ' '.join(t) + '\n')
+    # the reserved-word lists of IEEE 1800-2017 Annex B / 1364 as transcribed in the pinned tree: committed reference, changed only by hand
+    kb = os.path.join(os.path.dirname(os.path.abspath(__file__)), 'keywords_baseline.txt')
+    kw_changes = []
+    if os.path.exists(kb):
+        ref = {l.split(' ')[0]: l.split(' ')[1:] for l in open(kb).read().split('\n') if l.strip()}
+        cur = {v: t for v, t in zip(vers, tbls)}
+        for v in sorted(set(ref) | set(cur)):
+            a, b = ref.get(v, []), cur.get(v, [])
+            if sorted(a) != sorted(b):
+                kw_changes.append('%s: missing %s, extra %s' % (v, sorted(set(a) - set(b))[:6], sorted(set(b) - set(a))[:6]))
+    summary['kw_table_changes'] = kw_changes
     open(os.path.join(workdir, 'kinds.txt'), 'w').write('\n'.join(summary['kind_names']) + '\n')
     open(os.path.join(workdir, 'names.txt'), 'w').write('\n'.join(names) + '\n')
     json.dump(summary, open(os.path.join(workdir, 'summary.json'), 'w'))
